@@ -9,6 +9,7 @@ import (
 	"net"
 	"net/url"
 	"os"
+	"strconv"
 	"strings"
 	"time"
 
@@ -237,6 +238,7 @@ func Containers() []Named {
 		N("embeds iface holding typed nil", EmbedsIfaces{Stringer: (*ValStringer)(nil), Number: (*ValNumber)(nil)}), N("*embeds iface holding typed nil", &EmbedsIfaces{Boolean: (*ValBoolean)(nil)}),
 		N("embeds nil ifaces", EmbedsIfaces{}), N("*embeds nil ifaces", &EmbedsIfaces{}), N("embeds Stringer only", EmbedsIfaces{Stringer: ValStringer{"es"}}), N("embeds nil *ValStringer", EmbedsStringerPtr{Tag: "t"}), N("embeds *ValStringer", EmbedsStringerPtr{&ValStringer{"ep"}, "t"}),
 		N("Shadow (outer field hides the embedded one)", Shadow{Inner{"inner-name", 1}, "outer-name"}), N("*DeepShadow", &DeepShadow{Shadow{Inner{"inner", 1}, "mid"}, "outer-N"}), N("Ambig (X at the same depth twice)", Ambig{A1{1, 2}, A2{3, 4}, "t"}),
+		N("Checker (methods whose results are errors: values like any other)", Checker{Max: 1}), N("*Checker", &Checker{Max: 100}),
 		N("LateWins (the shallower X is declared first, a deeper one later)", LateWins{A1{5, 6}, Wrap2{Wrap3{"deep"}}}),
 		N("OuterVal", OuterVal{Inner{"in", 1}, 2}), N("*OuterVal", &OuterVal{Inner{"pin", 3}, 4}), N("OuterPtr", OuterPtr{&Inner{"ep", 5}, 6}), N("OuterPtr nil-embedded", OuterPtr{nil, 7}), N("*OuterPtr nil-embedded", &OuterPtr{nil, 8}),
 		N("OuterIface", func() OuterIface {
@@ -259,7 +261,7 @@ func Keys() []Named {
 		N("'a'", "a"), N("'k'", "k"), N("'1'", "1"), N("'0'", "0"), N("'Name'", "Name"), N("'hidden'", "hidden"), N("'ValueMethod'", "ValueMethod"), N("'PtrMethod'", "PtrMethod"),
 		N("'Add'", "Add"), N("'Variadic'", "Variadic"), N("'Join'", "Join"), N("'Fmt'", "Fmt"), N("'Two'", "Two"), N("'Nothing'", "Nothing"), N("'NilFunc'", "NilFunc"), N("'Fn'", "Fn"), N("'TakesPtr'", "TakesPtr"), N("'TakesUint'", "TakesUint"), N("'TakesInt8'", "TakesInt8"), N("'TakesUint8'", "TakesUint8"),
 		N("'TakesIface'", "TakesIface"), N("'TakesFloat'", "TakesFloat"), N("'TakesSlice'", "TakesSlice"), N("'Concat'", "Concat"), N("'hiddenMethod'", "hiddenMethod"), N("'missing'", "missing"), N("''", ""), N("'X'", "X"), N("'OnlyA'", "OnlyA"), N("'OnlyB'", "OnlyB"), N("'Étiquette'", "Étiquette"), N("'Ωmega'", "Ωmega"), N("'étiquette'", "étiquette"), N("-0.0", math.Copysign(0, -1)), N("'-0'", "-0"), N("'-0.0'", "-0.0"), N("float32 -0", float32(math.Copysign(0, -1))), NilSafePointer(), N("embeds a nil SafeValue as key", EmbedsSafe{}), N("opinionated safe 1", OpinionatedSafe{Inner: 1}), N("'Secret'", "Secret"), N("'secret'", "secret"), N("'Open'", "Open"), N("'Kids'", "Kids"), N("'GetSecret'", "GetSecret"), N("'IsOpen'", "IsOpen"), N("'HasKids'", "HasKids"), N("'Get'", "Get"), N("'count'", "count"),
-		N("'Items'", "Items"), N("'Inner'", "Inner"), N("'Any'", "Any"), N("'Attrs'", "Attrs"), N("'ID'", "ID"), N("'note'", "note"), N("'innerLower'", "innerLower"), N("'A'", "A"), N("'B'", "B"), N("'C'", "C"), N("'N'", "N"), N("'Extra'", "Extra"), N("'Hello'", "Hello"), N("'PtrHello'", "PtrHello"), N("'String'", "String"), N("'Number'", "Number"), N("'Boolean'", "Boolean"), N("'Tag'", "Tag"), N("'PP'", "PP"), N("'Next'", "Next"), N("KeyStr('a')", KeyStr("a")), N("KeyStringer('a')", KeyStringer("a")), N("OuterIface{slice}", OuterIface{Any: []int{1}}), N("KeyInt(1)", KeyInt(1)), N("'true'", "true"),
+		N("'Check'", "Check"), N("'Last'", "Last"), N("'Err'", "Err"), N("'Items'", "Items"), N("'Inner'", "Inner"), N("'Any'", "Any"), N("'Attrs'", "Attrs"), N("'ID'", "ID"), N("'note'", "note"), N("'innerLower'", "innerLower"), N("'A'", "A"), N("'B'", "B"), N("'C'", "C"), N("'N'", "N"), N("'Extra'", "Extra"), N("'Hello'", "Hello"), N("'PtrHello'", "PtrHello"), N("'String'", "String"), N("'Number'", "Number"), N("'Boolean'", "Boolean"), N("'Tag'", "Tag"), N("'PP'", "PP"), N("'Next'", "Next"), N("KeyStr('a')", KeyStr("a")), N("KeyStringer('a')", KeyStringer("a")), N("OuterIface{slice}", OuterIface{Any: []int{1}}), N("KeyInt(1)", KeyInt(1)), N("'true'", "true"),
 		// strings that strconv.ParseFloat accepts but that are no usable index
 		N("'NaN'", "NaN"), N("'nan'", "nan"), N("'Inf'", "Inf"), N("'-Inf'", "-Inf"), N("'+Infinity'", "+Infinity"), N("'1e400'", "1e400"), N("'0x1'", "0x1"), N("'0x1p-2'", "0x1p-2"),
 		N("'1e0'", "1e0"), N("'1.0'", "1.0"), N("' 1'", " 1"), N("'-0'", "-0"), N("'1_0'", "1_0"),
@@ -270,6 +272,23 @@ func Keys() []Named {
 		N("[]int", []int{1}), N("map", map[string]int{"a": 1}), N("stringer-k", ValStringer{"k"}), N("safe-a", stick.NewSafeValue("a", "html")), N("safe '1'", stick.NewSafeValue("1", "html")), N("safe 2", stick.NewSafeValue(2, "js")), N("safe 'k'", stick.NewSafeValue("k", "html")), N("func", func() {}),
 	}
 }
+
+// Checker has methods whose single result is an error value - nil, or not: what a method returns is what the lookup
+// finds, whatever else the result's type can do.
+type (
+	Issue   struct{ Code int }
+	Checker struct{ Max int }
+)
+
+func (i Issue) Error() string { return "issue " + strconv.Itoa(i.Code) }
+func (c Checker) Check(n int) error {
+	if n > c.Max {
+		return Issue{n}
+	}
+	return nil
+}
+func (c Checker) Last() Issue { return Issue{c.Max} }
+func (c *Checker) Err() error { return &Issue{-c.Max} }
 
 // ArgLists returns method argument lists.
 func ArgLists() [][]stick.Value {
